@@ -12,8 +12,19 @@ def run(ctx):
                         "rounding of arbitrary floats is outside what integer TLA+ can judge",
                         "on an axis of extent 0 the result of a relative move is not constrained (DESIGN 3.2)"]
     ctx.model_check(_world.MC, "World_C08.cfg" if q else "World_C08_thorough.cfg")
+    # the kernels for ALL integers (TLAPS); a statement about the specification only, in addition to TLC's bounded check
+    import os
+    from .. import tlc
+    ob, pr = tlc.tlaps(os.path.join(tlc.SPEC, "proofs", "KernelProofs.tla"), os.path.join(tlc.SPEC, "World.tla"),
+                       ("WMax", "WMin", "Hi", "Clamp", "WrapTo"))
+    if pr != ob:
+        raise tlc.MachineryError(f"TLAPS proved only {pr} of {ob} kernel obligations")
+    ctx.extra["tlaps_kernel_obligations"] = {"obligations": ob, "discharged": pr, "module": "spec/proofs/KernelProofs.tla"}
+    ctx.controls.append(f"TLAPS: {pr}/{ob} kernel obligations (Clamp/Wrap containment and exactness for all integers) proved")
     _world.spec_to_code(ctx, "World_MBT_c04.cfg", sample=3000 if q else 40000)
     n = 300 if q else 3000
+    from .. import suite
+    suite.run(ctx, ["space"])
     for kinds, label in ((("space",), "continuous worlds"), (("grid",), "generic grid worlds"), (("line", "grid2d"), "line and 2-D grid worlds")):
         runs = _world.random_runs(ctx, n, kinds=kinds, mods="clean", length=60, weights=W, n_models=1)
         _world.validate_runs(ctx, runs, f"random add/move/move_to/remove histories, non-cubic extents incl. 0, wrap on/off, {label}")
